@@ -36,7 +36,9 @@
 (* the naming scheme maps them to the names the real model uses: plain,    *)
 (* names of sympy / Python objects (S, E, I, beta, lambda_ ...), the       *)
 (* function's own formal parameter names, names that need escaping in an   *)
-(* SBML id (a.b, x-1, 2x, lambda, _d), names the importer reserves         *)
+(* SBML id (a.b, x-1, 2x, lambda, _d), names of the helper patterns the    *)
+(* exporter / importer generate (xref, init_pa, r1_stoich_x, and K - also  *)
+(* a module-level constant of the functions), names the importer reserves  *)
 (* (compartment, x_amount).  RenameInvariant (TLC-checked): the meaning of *)
 (* a model does not depend on the scheme.                                  *)
 (*                                                                         *)
@@ -97,7 +99,12 @@ vars == <<c, slots, i, toks, todo, args, scheme>>
 \* ---- the value algebra of MxlModel: exact rationals, functions = single-expression bodies ----------
 A == Var("a")  B == Var("b")
 \* math.pi is a named constant whose value the specification declines to compute (Skip)
-FT == [hlp |-> FnDef(<<"a", "b">>, <<Ret(Bin("sub", A, B))>>), pi |-> ConstDef(Skip)]
+\* K and BIG are MODULE-LEVEL constants of the Python module the functions live in (K = 3; BIG = 10^10, an integer
+\* literal beyond 32 bits, too large for Rat: Skip); `floor` is a USER function of that module that merely has the
+\* name of a mathematical function (floor(a) = a + 1).
+FT == [hlp |-> FnDef(<<"a", "b">>, <<Ret(Bin("sub", A, B))>>), pi |-> ConstDef(Skip),
+       K |-> ConstDef(RFromInt(3)), BIG |-> ConstDef(Skip),
+       floor |-> FnDef(<<"a">>, <<Ret(Bin("add", A, Num(1)))>>)]
 AllParams == <<"a", "b", "c">>
 
 \* A function is [params, e, body]: body is what Python runs (statements of module PyFn), e is the same meaning as ONE
@@ -351,19 +358,33 @@ Lib == {FnRec(<<"a", "b">>, Bin("sub", A, Bin("mul", Num(2), B))),
         FnRec(<<"a", "b", "c">>, Bin("add", Min(<<A, B, Var("c")>>), Bin("mul", Num(2), Max(<<A, B, Var("c")>>)))),
         FnRec(<<"a", "b", "c">>, Bin("sub", Bin("mul", Num(3), Max(<<Var("c"), Num(2), B, A>>)), Min(<<Num(1), Var("c"), B, A>>))),
         FnRec(<<"a", "b", "c">>, Ite(Cmp(<<"lt", "le", "gt">>, <<Var("c"), A, B, Num(1)>>), Bin("sub", A, Var("c")), Bin("add", B, Var("c"))))}
+\* Further library functions, offered with their base arguments in order only:
+\*   a module-level constant (K * a * b; under the scheme "helper" the model has a parameter that is also called K),
+\*   an integer literal beyond 32 bits (BIG * a - b), the two-argument logarithm log(a + 1, 2) * b,
+\*   a user function named like a mathematical one (floor(a) * b: not exportable), math.remainder(a, b) (not MathML's rem:
+\*   not exportable).
+Lib2 == {FnRec(<<"a", "b">>, Bin("mul", Const("K"), Bin("mul", A, B))),
+         FnRec(<<"a", "b">>, Bin("sub", Bin("mul", Const("BIG"), A), B)),
+         FnRec(<<"a", "b">>, Bin("mul", Fn("log", <<Bin("add", A, Num(1)), Num(2)>>), B)),
+         FnRec(<<"a", "b">>, Bin("mul", Call("floor", <<A>>), B)),
+         FnRec(<<"a", "b">>, Bin("add", Fn("remainder", <<Bin("add", A, Num(1)), Bin("add", B, Num(2))>>), A))}
 LibBase(f) == IF scheme = "formal" THEN [k \in DOMAIN f.params |-> InvFormal[f.params[k]]]
               ELSE SubSeq(<<"x", "p", "q">>, 1, Len(f.params))
 UseLib ==
     /\ AtSlotStart
-    /\ \E f \in Lib :
+    /\ \E f \in Lib \cup Lib2 :
           LET base == LibBase(f) IN
           /\ SeqRange(base) \subseteq Pool
-          /\ \E as \in {base, Swap(base), Rot(base)} :
+          /\ \E as \in (IF f \in Lib THEN {base, Swap(base), Rot(base)} ELSE {base}) :
                 LET s == slots[i] IN
                 \/ /\ s.kind = "der"
                    /\ c' = [c EXCEPT !.der = @ @@ (s.name :> [fn |-> f, args |-> as])]
-                \/ /\ s.kind = "rxn"          \* one fixed stoichiometry: the successor set stays small
-                   /\ c' = [c EXCEPT !.rxn = @ @@ (s.name :> [fn |-> f, args |-> as, st |-> ("x" :> M!Num(R(1, 2)))])]
+                \/ /\ s.kind = "rxn"          \* one fixed stoichiometry per library: the successor set stays small.
+                   \* It is a COMPUTED coefficient of x (another expression for Lib2): models with two or more
+                   \* reactions regularly have several different computed coefficients on one variable
+                   /\ c' = [c EXCEPT !.rxn = @ @@ (s.name :> [fn |-> f, args |-> as,
+                               st |-> ("x" :> IF f \in Lib THEN Calc(Bin("add", A, Num(2)), <<"p">>)
+                                              ELSE Calc(Bin("sub", A, B), <<"q", "p">>))])]
     /\ i' = i + 1
     /\ toks' = <<>>
     /\ todo' = IF i + 1 <= Len(slots) THEN Fresh ELSE <<>>
@@ -416,9 +437,10 @@ NameMap(s) ==
       [] s = "escape1"  -> [p |-> "k-a"]
       [] s = "escape2"  -> [x |-> "x.1"]
       [] s = "keyword"  -> [q |-> "lambda", d1 |-> "in"]
+      [] s = "helper"   -> [q |-> "K", p |-> "xref", d1 |-> "init_pa", d2 |-> "r1_stoich_x", r2 |-> "init_xa", pb |-> "xref_r2"]
       [] s = "amount"   -> [q |-> "x_amount"]
       [] s = "compart"  -> [q |-> "compartment"]
-AllSchemes == {"plain", "sympy", "formal", "escape", "escape1", "escape2", "keyword", "amount", "compart"}
+AllSchemes == {"plain", "sympy", "formal", "helper", "escape", "escape1", "escape2", "keyword", "amount", "compart"}
 
 Nm(n) == IF n \in DOMAIN NameMap(scheme) THEN NameMap(scheme)[n] ELSE n
 RenSeq(s) == [j \in DOMAIN s |-> Nm(s[j])]
@@ -464,7 +486,7 @@ MustExport(e) ==
     /\ e.k = "fn" => e.name \in CoreFns
     /\ LET ks == Kids(e) IN \A j \in DOMAIN ks : MustExport(ks[j])
 \* the specification cannot compute the value: opaque function or math.pi
-Opaque(e) == e.k \in {"fn", "const"} \/ LET ks == Kids(e) IN \E j \in DOMAIN ks : Opaque(ks[j])
+Opaque(e) == e.k = "fn" \/ (e.k = "const" /\ e.name \in {"pi", "BIG"}) \/ LET ks == Kids(e) IN \E j \in DOMAIN ks : Opaque(ks[j])
 
 RECURSIVE SubExprs(_)
 SubExprs(e) == {e} \cup LET ks == Kids(e) IN UNION {SubExprs(ks[j]) : j \in DOMAIN ks}
@@ -486,7 +508,7 @@ HasTie(e, env) ==
     \/ LET ks == Kids(e) IN \E j \in DOMAIN ks : HasTie(ks[j], env)
 \* exact in binary floating point: division by the literals 1, 2, 1/2 and powers with a natural literal exponent
 InexactNode(e) ==
-    \/ e.k \in {"fn", "const"}
+    \/ e.k = "fn" \/ (e.k = "const" /\ e.name \in {"pi", "BIG"})
     \/ e.k = "div" /\ ~(e.b.k = "num" /\ e.b.v \in {One, RFromInt(2), R(1, 2)})
     \/ e.k = "pow" /\ ~(e.b.k = "num" /\ IsInt(e.b.v) /\ e.b.v.n >= 0)
 Inexact(cc) == \E f \in FnsOf(cc) : \E s \in SubExprs(f.e) : InexactNode(s)
